@@ -123,17 +123,20 @@ pub fn conc_cases(s: &mut Sess, rng: &mut Rng, n: u64, prop: &'static str) {
         let rw_race = case % 3 == 1;
         if rw_race {
             let k = keys[0].clone();
-            if !initial.contains_key(&k) {
-                let c = contents[rng.below(3) as usize];
+            // contents of clearly different lengths, so that a range can start inside the old
+            // content and beyond the new one (and the other way round)
+            let rcontents: [&[u8]; 3] = [b"X", b"YYY", b"ZZZZZZ"];
+            {
+                let c = rcontents[1 + rng.below(2) as usize];
                 s.op(&format!("put {} ={}", hx(&k), hx(c)));
                 initial.insert(k.clone(), c.to_vec());
             }
             for t in 0..nthreads {
                 let mut prog = Vec::new();
                 for _ in 0..(if t == 0 { 2 } else { rng.range(1, 2) }) {
-                    let c = contents[rng.below(3) as usize].to_vec();
+                    let c = rcontents[rng.below(3) as usize].to_vec();
                     let op = if t == 0 {
-                        if rng.chance(2, 3) { let st = rng.below(2); Op::GetRange(k.clone(), st, *rng.pick(&[st + 1, 2, 3, 100, u64::MAX / 2, u64::MAX])) } else { Op::Get(k.clone()) }
+                        if rng.chance(2, 3) { let st = rng.below(7); Op::GetRange(k.clone(), st, *rng.pick(&[st, st + 1, st + 2, 6, 100, u64::MAX / 2, u64::MAX])) } else { Op::Get(k.clone()) }
                     } else {
                         match rng.below(8) { 0..=4 => Op::Put(k.clone(), c), 5 => Op::Remove(k.clone()), 6 => Op::RemoveAll, _ => Op::Get(k.clone()) }
                     };
@@ -176,7 +179,7 @@ pub fn conc_cases(s: &mut Sess, rng: &mut Rng, n: u64, prop: &'static str) {
         if puts.iter().any(|a| puts.iter().any(|b| a.0 != b.0 && a.1 == b.1)) { s.out.count("conc.same-key-puts"); }
         if puts.iter().any(|a| puts.iter().any(|b| a.0 != b.0 && a.2 == b.2)) { s.out.count("conc.same-content-puts"); }
         let progs_text: Vec<String> = programs.iter().map(|p| p.iter().map(text).collect::<Vec<_>>().join(";")).collect();
-        let policy = if rng.chance(1, 2) { "stall" } else { "rand" };
+        let policy = if rng.chance(1, 2) { if rw_race && rng.chance(2, 3) { "stall0" } else { "stall" } } else { "rand" };
         s.out.count(if policy == "stall" { "conc.policy-stall" } else { "conc.policy-rand" });
         let obs = s.op(&format!("conc {policy}={} {}", rng.next() % 1_000_000, progs_text.join(" ")));
         // ---- oracles
